@@ -105,7 +105,7 @@ MUTANTS = [
     ("m16c", ["C16"], "dotnet plugin skips cleanup", [(DU, '''    cleanup(output_path)
     copy_custom_classes(output_path)''', '''    copy_custom_classes(output_path)''')], None),
     ("m17a", ["C17"], "LSP_OVER_MAX_UINT labelled True", [(TG, '''        yield (False, LSP_OVER_MAX_UINT)''', '''        yield (True, LSP_OVER_MAX_UINT)''')], None),
-    ("m17b", ["C17"], "custom enum values labelled True for closed enums", [(TG, '''            yield (bool(enum.supportsCustomValues), "testCustomValue")''', '''            yield (True, "testCustomValue")''')], None),
+    ("m17b", ["C17"], "custom enum values labelled True for closed enums", [(TG, '''            yield (bool(enum.supportsCustomValues), custom_str)''', '''            yield (True, custom_str)''')], None),
     ("m18a", ["C18"], "Property.__eq__ ignores optional", [(MO, '''                and self.type == other.type
                 and self.optional == other.optional''', '''                and self.type == other.type''')], None),
     ("m18b", ["C18"], "schema validation no longer rooted", [(MA, '''    schema.setdefault("$ref", "#/definitions/MetaModel")''', '''    pass''')], None),
@@ -124,9 +124,9 @@ def _register_capabilities_hooks(conv: cattrs.Converter) -> cattrs.Converter:
     converter = _SHARED[0]
 '''),
         (H, '''    for type_, hook in structure_hooks:
-        converter.register_structure_hook(type_, hook)
+        _register_union_structure_hook(converter, type_, hook)
     return converter''', '''    for type_, hook in structure_hooks:
-        conv.register_structure_hook(type_, hook)
+        _register_union_structure_hook(conv, type_, hook)
     return conv''')], None),
     ("m20a", ["C20", "C05"], "Position.__gt__ compares only line", [(T, '''        return (self.line, self.character) > (o.line, o.character)''', '''        return (self.line,) > (o.line,)''')], None),
     ("m20b", ["C20", "C05"], "Range.__eq__ ignores end", [(T, '''        return (self.start == o.start) and (self.end == o.end)''', '''        return self.start == o.start''')], None),
